@@ -9,6 +9,7 @@ from mc import alphabets as A
 from mc.harness import Result, Sub
 from mc.ref.base import frac_tie_margin, mk_snap, write_neighbor_file
 from mc.ref import cgorder as G
+from mc.ref import c16x as X
 
 ASSUMPTIONS = [
     "spatial_average: the neighbour file lists every particle once per frame (ids 1-based), coordination numbers <= Nmax "
@@ -21,6 +22,11 @@ ASSUMPTIONS = [
     "starts 0,1,.. up to T-w+1 is accepted, at least one whenever w < T; centre index within 1/2 of n+(w-1)/2 (either "
     "middle frame of an even window)",
     "float tolerance rtol 1e-9 / atol 1e-11",
+    "C16.scale enumerates SIZES (64..257 particles, grids of 221..765 points, 63..130 frames, windows 2..100) with one fixed value pattern "
+    "per size; spatial_average there reads harness-written formula lists (0..4 neighbours, one particle with 30 = default Nmax; Nmax is also "
+    "passed equal to the largest coordination number); coordination numbers never exceed Nmax; output files (np.save) must hold the "
+    "returned arrays; gaussian_blurring called without sigma / ppp / gaussian_cut uses the documented defaults 2.0 / periodic in every "
+    "direction / 6.0",
 ]
 
 RT, AT = 1e-9, 1e-11
@@ -327,6 +333,223 @@ def run_window(case):
     return R
 
 
+# ======================================================================================= C16.scale
+SCALE_N = [64, 65, 130, 257]
+SCALE_GRIDS = [[17, 13], [16, 16], [13, 17], [9, 8, 7], [5, 17, 3], [3, 5, 17]]
+SCALE_T = [63, 64, 65, 130]
+SCALE_W = [2, 3, 7, 31, 32, 33, 63, 64, 65, 100]
+SP_KINDS = ["first", "last", "formula", "wide", "one"]
+
+
+def gen_scale(tier, seed):
+    q = tier == "quick"
+    k = 0
+    for N in SCALE_N:
+        for lk in SP_KINDS:
+            for rank in (0, 1, 2):
+                for F in (1, 3):
+                    k += 1
+                    if q and (k + rank) % 2:
+                        continue
+                    yield {"kind": "spatial", "N": N, "lk": lk, "rank": rank, "F": F, "dtype": "complex" if k % 3 == 0 else "float",
+                           "nmax": "equal" if k % 4 == 1 else "default", "save": k % 5 == 0, "seed": seed}
+    k = 0
+    for ng in SCALE_GRIDS:
+        d = len(ng)
+        for N in (1, 65, 130):
+            for mi, m in enumerate(A.masks(d)):
+                for rank in (0, 1, 2):
+                    k += 1
+                    if q and (k % 4 or (N == 1 and mi)):
+                        continue
+                    if not q and N == 1 and mi > 1:
+                        continue
+                    yield {"kind": "blur", "ngrids": ng, "N": N, "ppp": m, "rank": rank, "sigma": 0.5 if k % 2 else 2.0, "F": 2 if k % 3 == 0 else 1,
+                           "save": k % 5 == 0, "seed": seed}
+        # the documented defaults of the signature: sigma = 2.0, ppp = periodic in every direction, gaussian_cut = 6.0, no output file
+        for rank in (0, 1):
+            yield {"kind": "blur", "ngrids": ng, "N": 65, "ppp": [1] * d, "rank": rank, "sigma": 2.0, "F": 1, "save": False, "defaults": True, "seed": seed}
+    for T in SCALE_T:
+        for w in SCALE_W:
+            if w >= T:
+                continue
+            for (dt, dstep) in (INTERVALS if not q else INTERVALS[:1] + INTERVALS[3:4]):
+                for half in (False, True):
+                    for kind in ("real", "complex"):
+                        if q and (kind == "complex") != ((w + T) % 3 == 0):
+                            continue
+                        interval = Decimal(dt) * dstep
+                        period = interval * (2 * w + (1 if half else 0)) / 2
+                        yield {"kind": "window", "T": T, "w": w, "dt": dt, "dstep": dstep, "period": str(period), "vkind": kind, "N": 3, "seed": seed}
+
+
+def run_scale(case):
+    return {"spatial": scale_spatial, "blur": scale_blur, "window": scale_window}[case["kind"]](case)
+
+
+def scale_spatial(case):
+    from PyMatterSim.utils.coarse_graining import spatial_average
+
+    R = Result()
+    N, F, rank = case["N"], case["F"], case["rank"]
+    frames = [X.lists(N, f, case["lk"]) for f in range(F)]
+    x = X.values((F, N) + (3,) * rank, case["dtype"] == "complex")
+    sig = {"kind": "spatial", "rank": rank, "lists": case["lk"], "multi_frame": F > 1, "dtype": case["dtype"], "nmax": case["nmax"], "scale": True}
+    write_neighbor_file("nl_c16s.dat", frames)
+    x0 = x.copy()
+    kw = {}
+    if case["nmax"] == "equal":
+        kw["Nmax"] = max(len(nb) for fr in frames for nb in fr)
+    if case["save"]:
+        kw["outputfile"] = "sp_c16s.npy"
+    got = np.asarray(spatial_average(x, "nl_c16s.dat", **kw))
+    os.remove("nl_c16s.dat")
+    ref = G.ref_spatial_average(x0, frames)
+    R.elem = F * N
+    if got.shape != ref.shape:
+        R.fail(f"shape {got.shape} != {ref.shape}", sig=dict(sig, clause="shape"))
+        return R
+    if not np.allclose(got, ref, rtol=RT, atol=AT):
+        bad = np.argwhere(~np.isclose(got, ref, rtol=RT, atol=AT))[0]
+        f, i = int(bad[0]), int(bad[1])
+        R.fail(f"N={N} lists={case['lk']}: frame {f} particle {i} (cn {len(frames[f][i])}): got {np.asarray(got[f, i]).ravel()[:3]!r}, expected "
+               f"(x_i + sum_j x_j)/(1+cn) = {np.asarray(ref[f, i]).ravel()[:3]!r}", sig=dict(sig, clause="mean"))
+    if case["save"]:
+        if not os.path.exists("sp_c16s.npy") or not np.array_equal(np.load("sp_c16s.npy"), got):
+            R.fail("saved file differs from the returned array", sig=dict(sig, clause="file"))
+        if os.path.exists("sp_c16s.npy"):
+            os.remove("sp_c16s.npy")
+    if not np.array_equal(x, x0):
+        R.fail("input property modified", sig=dict(sig, clause="input_modified"))
+    R.outcome(got)
+    R.nontrivial = len({len(nb) for nb in frames[0]}) > 1
+    return R
+
+
+def scale_blur(case):
+    from PyMatterSim.reader.reader_utils import Snapshots
+    from PyMatterSim.utils.coarse_graining import gaussian_blurring
+
+    R = Result()
+    ng, N, F, rank, seed = case["ngrids"], case["N"], case["F"], case["rank"], case["seed"]
+    d = len(ng)
+    ppp = np.array(case["ppp"])
+    sigma, cut = case["sigma"], (6.0 if case.get("defaults") else CUTS["in"])
+    sig = {"kind": "blur", "defaults": bool(case.get("defaults")), "d": d, "rank": rank, "square": len(set(ng)) == 1, "masked": bool((ppp == 0).any()), "multi_frame": F > 1, "scale": True}
+    frames = []
+    for f in range(F):
+        lo = np.array(BOX[f]["lo"][:d])
+        L = np.array(BOX[f]["L"][:d])
+        pos = lo + np.array(A.generic_points(seed, N, d, tag=f"bls{d}{N}{f}_")) * L
+        frames.append((lo, L, pos))
+    cond = X.values((F, N) + (d,) * rank, False, salt=3) + 0.5
+    npts = int(np.prod(ng))
+    ref_pts = []
+    for (lo, L, pos) in frames:
+        pts = X.grid(np.column_stack((lo, lo + L)), ng)
+        _, margin, _, diff = X.blur(pts, pos, np.diag(L), ppp, cond[0], sigma, cut)
+        if margin < 1e-9 or frac_tie_margin(diff, np.diag(L), ppp) < 1e-9:
+            return R.screen()
+        ref_pts.append(pts)
+    snaps = Snapshots(F, [mk_snap(pos, np.diag(L), [1] * N, lo=lo, ts=100 * f) for f, (lo, L, pos) in enumerate(frames)])
+    before = [s.positions.copy() for s in snaps.snapshots]
+    cond0 = cond.copy()
+    out = "bl_c16s" if case["save"] else ""
+    if case.get("defaults"):
+        gp, gv = gaussian_blurring(snaps, cond, np.array(ng))
+    else:
+        gp, gv = gaussian_blurring(snaps, cond, np.array(ng), sigma, ppp, cut, outputfile=out)
+    gp, gv = np.asarray(gp), np.asarray(gv)
+    R.elem = npts * F
+    if gp.shape != (F, npts, d):
+        R.fail(f"grid_positions shape {gp.shape} != {(F, npts, d)}", sig=dict(sig, clause="shape"), sub="C16.blur.grid")
+        return R
+    if gv.shape != (F, npts) + cond.shape[2:]:
+        R.fail(f"grid_property shape {gv.shape}", sig=dict(sig, clause="shape"), sub="C16.blur.values")
+        return R
+    ncontrib = 0
+    for f, (lo, L, pos) in enumerate(frames):
+        scale = float(np.max(np.abs(ref_pts[f]))) + 1.0
+        want = sorted(tuple(np.round(p / scale, 10) + 0.0) for p in ref_pts[f])
+        have = sorted(tuple(np.round(p / scale, 10) + 0.0) for p in gp[f])
+        if want != have:
+            missing = len(set(want) - set(have))
+            R.fail(f"ngrids={ng} frame {f}: grid rows are not the Cartesian product of the linspaces ({missing} of {npts} points missing)",
+                   sig=dict(sig, clause="grid"), sub="C16.blur.grid")
+        elif not np.allclose(gp[f], ref_pts[f], rtol=0, atol=1e-10 * scale):
+            k = int(np.argmax(np.abs(gp[f] - ref_pts[f]).max(axis=1) > 1e-10 * scale))
+            R.fail(f"ngrids={ng} frame {f}: row {k} is {gp[f, k].tolist()}, expected {ref_pts[f, k].tolist()} (x slowest)", sig=dict(sig, clause="index"),
+                   sub="C16.blur.index")
+        # every row's value equals the reference sum at the position REPORTED for that row
+        vals, margin, nc, _ = X.blur(gp[f], pos, np.diag(L), ppp, cond[f], sigma, cut)
+        ncontrib += nc
+        if margin >= 1e-9 and not np.allclose(gv[f], vals, rtol=RT, atol=AT):
+            k = int(np.argwhere(~np.isclose(gv[f], vals, rtol=RT, atol=AT))[0][0])
+            R.fail(f"ngrids={ng} N={N} frame {f} grid row {k} at {gp[f, k].tolist()}: value {np.asarray(gv[f, k]).ravel()[:3].tolist()!r}, reference "
+                   f"{np.asarray(vals[k]).ravel()[:3].tolist()!r}", sig=dict(sig, clause="value"), sub="C16.blur.values")
+    if case["save"]:
+        for suffix, arr in (("_positions.npy", gp), ("_properties.npy", gv)):
+            if not os.path.exists(out + suffix) or not np.array_equal(np.load(out + suffix), arr):
+                R.fail(f"saved file {suffix} differs from the returned array", sig=dict(sig, clause="file"), sub="C16.blur.values")
+            if os.path.exists(out + suffix):
+                os.remove(out + suffix)
+    for s_, b in zip(snaps.snapshots, before):
+        if not np.array_equal(s_.positions, b):
+            R.fail("snapshot positions modified", sig=dict(sig, clause="input_modified"), sub="C16.blur.values")
+    if not np.array_equal(cond, cond0):
+        R.fail("condition array modified", sig=dict(sig, clause="input_modified"), sub="C16.blur.values")
+    R.outcome([gp, gv])
+    R.nontrivial = ncontrib > 0
+    return R
+
+
+def scale_window(case):
+    from PyMatterSim.reader.reader_utils import Snapshots
+    from PyMatterSim.utils.coarse_graining import time_average
+
+    R = Result()
+    T, N = case["T"], case["N"]
+    w = G.ref_window(case["period"], case["dt"], case["dstep"])
+    assert w == case["w"]
+    m2 = (Decimal(case["period"]) / (Decimal(case["dt"]) * case["dstep"]))
+    sig = {"kind": "window", "exact_multiple": bool(m2 == m2.to_integral_value()), "even_window": w % 2 == 0, "vkind": case["vkind"], "scale": True}
+    x = X.values((T, N), case["vkind"] == "complex", salt=1)
+    H = np.diag([4.0, 4.0])
+    pos = [[1.0 + 0.5 * i, 2.0] for i in range(N)]
+    snaps = Snapshots(T, [mk_snap(pos, H, [1] * N, ts=1000 + case["dstep"] * t) for t in range(T)])
+    x0 = x.copy()
+    res, mid = time_average(snaps, x, float(case["period"]), float(case["dt"]))
+    res, mid = np.asarray(res), np.asarray(mid)
+    rows = res.shape[0]
+    R.elem = max(1, rows)
+    R.outcome({"rows": rows, "mid": mid.tolist(), "res": res})
+    where = f"T={T} period={case['period']} interval={case['dt']}*{case['dstep']} (window {w})"
+    if res.ndim != 2 or res.shape[1] != N:
+        R.fail(f"result shape {res.shape} ({where})", sig=dict(sig, clause="shape"), sub="C16.window.mean")
+        return R
+    if len(mid) != rows:
+        R.fail(f"{len(mid)} centre indices for {rows} rows ({where})", sig=dict(sig, clause="count"), sub="C16.window.centre")
+        return R
+    means = G.ref_window_means(x0, w)
+    if rows > len(means) or rows < 1:
+        R.fail(f"{rows} rows returned, admissible 1..{len(means)} ({where})", sig=dict(sig, clause="rows"), sub="C16.window.length")
+        return R
+    for n in range(rows):
+        if not np.allclose(res[n], means[n], rtol=RT, atol=AT):
+            R.fail(f"row {n} is not the mean over frames {n}..{n + w - 1} ({where})", sig=dict(sig, clause="mean"), exp=means[n], obs=res[n],
+                   sub="C16.window.mean")
+            break
+    for n in range(rows):
+        c = n + (w - 1) / 2.0
+        if abs(float(mid[n]) - c) > 0.5 + 1e-12 or float(mid[n]) != int(mid[n]):
+            R.fail(f"window starting at {n}: centre index {mid[n]!r}, central frame is {c} ({where})", sig=dict(sig, clause="centre"),
+                   sub="C16.window.centre")
+            break
+    if not np.array_equal(x, x0):
+        R.fail("input property modified", sig=dict(sig, clause="input_modified"), sub="C16.window.mean")
+    return R
+
+
 def subs(tier, seed):
     return [
         Sub("C16.spatial", gen_spatial, run_spatial,
@@ -349,4 +572,14 @@ def subs(tier, seed):
                  "(every window 1..T as an exact multiple and as a half-way value) x real/complex; window length by rational arithmetic; "
                  "sub-checks window.length, window.mean, window.centre; non-trivial = w < T",
             bounds={"T": [2, 8], "intervals": len(INTERVALS)}),
+        Sub("C16.scale", gen_scale, run_scale,
+            rule="SIZE enumeration (one fixed value pattern per size): spatial_average with N in " + str(SCALE_N) + " x ragged harness-written lists "
+                 "{max coordination at the first / last particle only, formula incl. isolated particles, one particle with 30 = default Nmax, first "
+                 "particle with exactly one} x ranks 0-2 x F in {1,3} (a different topology per frame) x {default Nmax, Nmax = largest coordination "
+                 "number} x outputfile; gaussian_blurring on the grids " + str(SCALE_GRIDS) + " x N in {1,65,130} x masks x ranks x sigma {0.5,2} "
+                 "x cut 2.5 (inside the box), boxes with non-zero origin and unequal edges (a second frame with another box for a third), "
+                 "outputfile, and calls that leave sigma / ppp / gaussian_cut at their documented defaults; time_average with T in " + str(SCALE_T) + " x windows " + str(SCALE_W) + " as exact decimal multiples and half-way "
+                 "periods x intervals" + (" (every second / fourth combination in the quick tier)" if tier == "quick" else "")
+                 + "; every entry compared (blurring: vectorised reference evaluated at the reported grid rows)",
+            bounds={"N": SCALE_N, "grids": SCALE_GRIDS, "T": SCALE_T, "windows": SCALE_W}),
     ]
